@@ -414,8 +414,7 @@ theorem gtAfterHour_canon (m s : Nat) (hm : m < 100) (hs : s < 100) :
 /-- parsing a canonical text: the ten leading digits, the tail, the validation -/
 theorem GT2timeFrac_canon (lo : Int) (g : Bool) (Y M D h m s : Nat) (hv : ValidDateTime Y M D h m s) :
     GT2timeFrac lo (gtCanon Y M D h m s) g =
-      if epochSeconds Y M D h m s = -1 then .einval
-      else .ok (epochSeconds Y M D h m s) 0 0
+      .ok (epochSeconds Y M D h m s) 0 0
         (if g then gmtime (epochSeconds Y M D h m s) else localtime (epochSeconds Y M D h m s) lo) := by
   obtain ⟨hY, hM1, hM2, hD1, hD2, hh, hm, hs⟩ := hv
   have hD31 : D ≤ 31 := by
